@@ -287,7 +287,7 @@ func runTruncated(c *Ctx, sc *Scenario, site *Site) *Violation {
 
 func checkC16(c *Ctx, rt *rapid.T) {
 	g := G{rt}
-	if g.Chance(1, 100, "truncate") {
+	if g.Rare(1, 300, "truncate") {
 		w, inv, refopts := genC10Base(g, true)
 		sc := &Scenario{Format: 1, Property: "C16", Engine: "A", World: w, Inv: inv, Plan: Plan{}, Params: c16Params{Mode: "truncate", RefOpts: refopts}}
 		if v := judgeC16(c, sc); v != nil {
